@@ -889,6 +889,12 @@ func (m *Model) dispatch(loc string, event map[string]interface{}, p Prot, honou
 		if !m.CanRead(l, p) {
 			return nil, refuse("read not allowed")
 		}
+		if multi[n] && len(m.unc(l)) > 0 {
+			// an ancestor reached twice that may hold a rule the model does not
+			// know of (an add cut short by a fault, say): the engine reports a
+			// duplicate id for any candidate rule of such an ancestor
+			return nil, errDiamond
+		}
 		for _, id := range sortedItemIds(l) {
 			it := l.Items[id]
 			if !m.Live(it) {
